@@ -19,6 +19,9 @@ type dynVal struct {
 
 func randDyn(r *Rand) dynVal {
 	small := int64(r.Intn(200)) - 100
+	if r.Intn(12) == 0 {
+		return dynVal{nil, "GNil"} // a variable bound to nil (a JSON null): it IS bound, whatever the key layout
+	}
 	switch r.Intn(17) {
 	case 0:
 		return dynVal{int(small), "GInt " + coqZ(small)}
